@@ -51,6 +51,7 @@ M = [
     ("C06", "translation-sign", "svg.py", "                x_prime, y_prime = translate.map_point((x, y))", "                x_prime, y_prime = translate.inverse().map_point((x, y))"),
     ("C06", "template-overrides-own", "svg.py", "            if attr_name in template.attrib and attr_name not in gradient.attrib:", "            if attr_name in template.attrib:"),
     ("C06", "stops-always-copied", "svg.py", "        if len(gradient) == 0:\n            for stop_el in template:", "        if True:\n            for stop_el in template:"),
+    ("C06", "template-not-applied-before-transform", "svg.py", "                    fill_el = self.resolve_url(el.attrib[\"fill\"], \"*\")\n                    self._apply_gradient_template(fill_el)", "                    fill_el = self.resolve_url(el.attrib[\"fill\"], \"*\")"),
     ("C06", "percent-y-uses-width", "svg_types.py", "            y1=number_or_percentage(attrib.pop(\"y1\", \"0%\"), scale.h),", "            y1=number_or_percentage(attrib.pop(\"y1\", \"0%\"), scale.w),"),
     ("C07", "prune-before-rounding", "svg.py", "        self.round_floats(ndigits, inplace=True)\n\n        # https://github.com/googlefonts/picosvg/issues/269 remove empty subpaths *after* rounding\n        self.remove_empty_subpaths(inplace=True)", "        self.remove_empty_subpaths(inplace=True)\n        self.round_floats(ndigits, inplace=True)\n"),
     ("C07", "ntos-keeps-point-zero", "svg_meta.py", "    return str(int(n)) if isinstance(n, float) and n.is_integer() else str(n)", "    return str(n)"),
